@@ -211,3 +211,81 @@ Example C19_run_instance :
   (* ... and a keep-alive goes to the association that has been silent for 50 ms *)
   nth_error h 30 = Some (MsOTxLink 61 1025 true).
 Proof. vm_compute. repeat split. Qed.
+
+(* ---- agreement of the hand-written models with the tables regenerated from the source on every run
+   (tools/gen/gen_master_tables.py -> gen/MasterTables.v; lemmas, interpreters and observers in
+   Master/TablesAgree.v, module MTab).  `.._is_table`: the model's function IS the interpreter run over the
+   generated table; `.._observed`: the order the model serves things in, observed on enumerated states. *)
+From Coq Require Import String List.
+From Dnp3V Require Import Base.Bytes Master.Backoff Master.Assoc Master.Sched Master.MParse Master.Command Master.MTask
+  Master.TimeSync gen.MasterTables Master.TablesAgree.
+Import MTab.
+Local Open Scope string_scope.
+Local Open Scope list_scope.
+Local Open Scope N_scope.
+
+(* every combination of ready sources: the model serves the first one in the generated order *)
+Theorem C19_tables_next_task_sources_observed :
+  map (fun x => match x with (a, p, l) => observed_source a p l end)
+      [(false,false,false); (false,false,true); (false,true,false); (false,true,true);
+       (true,false,false); (true,false,true); (true,true,false); (true,true,true)]
+  = map (fun x => match x with (a, p, l) => table_source a p l end)
+      [(false,false,false); (false,false,true); (false,true,false); (false,true,true);
+       (true,false,false); (true,false,true); (true,true,false); (true,true,true)].
+Proof. exact MTab.next_task_sources_observed. Qed.
+Print Assumptions C19_tables_next_task_sources_observed.
+
+Theorem C19_tables_map_next_task_passes_observed :
+  observed_pass true = hd_error gm_map_next_task_passes /\
+  observed_pass false = hd_error (tl gm_map_next_task_passes).
+Proof. exact MTab.map_next_task_passes_observed. Qed.
+Print Assumptions C19_tables_map_next_task_passes_observed.
+
+Theorem C19_tables_queue_admission : forall now tok k a cfg st t,
+  (match ms_err_of (snd gm_queue_admit) with
+   | Some e => Some (if cmp_nat (fst gm_queue_admit) (length (ms_a_queue a)) (ms_c_maxq (ms_a_cfg a))
+                     then (ms_set_queue a (ms_a_queue a ++ [(tok, k)]), [])
+                     else ms_task_error now (ms_user_task tok k) e false a)
+   | None => None
+   end) = Some (ms_queue_task now true tok k a) /\
+  (MT.s_assoc st = true -> MT.s_conn st = true ->
+   MT.on_user cfg st tok t
+   = if cmp_nat (fst gm_queue_admit) (length (MT.s_queue st)) (MT.c_maxq cfg)
+     then (MT.set_queue st (MT.s_queue st ++ [(tok, t)]), [])
+     else (st, MT.emit st (MT.ORes tok (MT.RErr MT.ETooMany)))) /\
+  snd gm_queue_admit = "TooManyRequests".
+Proof. exact MTab.queue_admission_agrees. Qed.
+Print Assumptions C19_tables_queue_admission.
+
+Theorem C19_tables_nonread_validation_is_table : forall st0 dest t k fc0 seq dl src f,
+  let st := ms_touch st0 src in
+  validate_dispatch gm_validate_non_read_response (ms_check dest seq true src f)
+    (ms_unsolicited st src f) (st, [])
+    (ms_nonread_fail st dest t k f)
+    (ms_nonread_accept (ms_m_now st0) st dest t k fc0 seq f)
+  = Some (ms_rx_nonread st0 dest t k fc0 seq dl src (MsRxResp f)).
+Proof. exact MTab.ms_nonread_validation_is_table. Qed.
+Print Assumptions C19_tables_nonread_validation_is_table.
+
+Theorem C19_tables_read_validation_is_table : forall st0 dest t seq first dl src f,
+  let st := ms_touch st0 src in
+  validate_dispatch gm_process_read_response (ms_check dest seq first src f)
+    (ms_unsolicited st src f) (st, [])
+    (fun e => option_map (fun x => ms_fail_task st dest t (ms_task_type t) x false) (ms_err_of e))
+    (ms_read_accept (ms_m_now st0) st dest t seq f)
+  = Some (ms_rx_read st0 dest t seq first dl src (MsRxResp f)).
+Proof. exact MTab.ms_read_validation_is_table. Qed.
+Print Assumptions C19_tables_read_validation_is_table.
+
+Theorem C19_tables_after_accept_order_observed :
+  observed_nonread_after_accept = gm_non_read_after_accept /\
+  observed_read_after_accept
+  = filter (fun n => negb (str_in n ["get_association"; "fin_complete_else_read_next"])) gm_read_after_accept.
+Proof. exact MTab.after_accept_order_observed. Qed.
+Print Assumptions C19_tables_after_accept_order_observed.
+
+Example C19_tables_instance :
+  gm_next_task_sources = ["auto_tasks"; "polls"; "link_status"] /\
+  gm_map_next_task_passes = ["priority_task"; "next_task"] /\
+  gm_non_read_after_accept = ["confirm_if_con"; "process_iin"; "handle_response"].
+Proof. repeat split. Qed.
